@@ -102,6 +102,8 @@ class Closed:
             bt = self.tag(e.value, st)
             if bt in (MAPC, 'EMPTYMAP'):
                 return C      # an empty map has no values: vacuously closed
+            if bt == LISTC and not isinstance(e.slice, ast.Slice):
+                return C      # an element of a list of closed sets
             return U
         if isinstance(e, ast.Set):
             return R if e.elts else C
@@ -318,6 +320,14 @@ class Closed:
                 t = self.tag(base, st)
                 self.require('i', e, t, 'acceptance decision `{}`'.format(u(e)), ok_tags=(C,))
                 n += 1
+            # (i) a witness picked from the set:  next((r for r in X if r in F), None)  /  [r for r in X if r in F]
+            if isinstance(e, (ast.GeneratorExp, ast.ListComp, ast.SetComp)) and len(e.generators) == 1 and len(e.generators[0].ifs) == 1 and isinstance(e.generators[0].target, ast.Name):
+                c0 = e.generators[0].ifs[0]
+                if isinstance(c0, ast.Compare) and len(c0.ops) == 1 and isinstance(c0.ops[0], ast.In) and u(c0.left) == e.generators[0].target.id and self._is_F(c0.comparators[0]) \
+                        and not self._inside_any(e) and self._decides(e):
+                    st, nid = self.state_at(e)
+                    self.require('i', e, self.tag(e.generators[0].iter, st), 'accepting state picked from `{}`'.format(u(e.generators[0].iter)))
+                    n += 1
             # (i) symmetric spelling:  F.isdisjoint(<state set>)
             if isinstance(e, ast.Call) and isinstance(e.func, ast.Attribute) and e.func.attr == 'isdisjoint' and e.args and self._is_F(e.func.value) and not self._is_F(e.args[0]):
                 st, nid = self.state_at(e)
@@ -380,6 +390,13 @@ class Closed:
                     n += 1
         return n
 
+    def _decides(self, gen):
+        """the generator is the first argument of next(.., default): the pick doubles as the acceptance decision"""
+        for c in walk_no_nested(self.f.node):
+            if isinstance(c, ast.Call) and isinstance(c.func, ast.Name) and c.func.id == 'next' and len(c.args) == 2 and c.args[0] is gen:
+                return True
+        return False
+
     def _is_if_test(self, e):
         for c in walk_no_nested(self.f.node):
             if isinstance(c, ast.If) and c.test is e:
@@ -432,39 +449,70 @@ def check_history(ctx, rep, f):
     """(iv) the simulation history alternates raw and closed sets"""
     a = Closed(ctx, rep, f)
     a.run()
-    seq = [(m, t, s) for (m, t, s) in a.history]
+    seq = [(m, t, s) for (m, t, s) in a.history if not (isinstance(t, tuple) and t and t[0] == 'tuple')]
     if not seq:
         rep.undecided(RULE + '.iv', f, 'def ' + f.name, 'no history appends found')
         return
-    # order by source position; the dataflow may visit twice
+    # order by source position; the dataflow may visit twice.  Each list is judged on its own: a list that only ever
+    # receives closed sets (or only raw ones) is a column of the history, a list that receives both must alternate
     seen = {}
     for (m, t, s) in seq:
         seen[id(s)] = (s.lineno, m, t, s)
-    ordered = [v for _, v in sorted(seen.items(), key=lambda kv: kv[1][0])]
-    tags = [t for (_, _, t, _) in ordered]
-    want = [R, C] * (len(tags) // 2)
-    if tags == want and len(tags) % 2 == 0:
-        rep.holds(RULE + '.iv', f, ordered[0][3], 'the history receives raw and epsilon-closed sets alternately ({} appends)'.format(len(tags)))
-    elif U in tags:
-        rep.undecided(RULE + '.iv', f, ordered[0][3], 'closedness of a history entry is not established: {}'.format(tags))
-    else:
-        rep.violates(RULE + '.iv', f, ordered[0][3], 'the history must alternate raw and closed sets (the backward walk pops them in pairs); found {}'.format(tags))
+    by_list = {}
+    for v in sorted(seen.values(), key=lambda v: v[0]):
+        by_list.setdefault(v[1], []).append(v)
+    for m, ordered in sorted(by_list.items()):
+        tags = [t for (_, _, t, _) in ordered]
+        want = [R, C] * (len(tags) // 2)
+        if tags == want and len(tags) % 2 == 0:
+            rep.holds(RULE + '.iv', f, ordered[0][3], 'the history {} receives raw and epsilon-closed sets alternately ({} appends)'.format(m, len(tags)))
+        elif all(t == C for t in tags) or all(t == R for t in tags):
+            rep.holds(RULE + '.iv', f, ordered[0][3], 'the list {} only receives {} sets ({} appends): one column of the history'.format(m, 'epsilon-closed' if tags[0] == C else 'raw', len(tags)))
+        elif any(t not in (R, C) for t in tags):
+            rep.undecided(RULE + '.iv', f, ordered[0][3], 'closedness of a history entry is not established: {}'.format(tags))
+        else:
+            rep.violates(RULE + '.iv', f, ordered[0][3], 'the history must alternate raw and closed sets (the backward walk pops them in pairs); found {}'.format(tags))
+
+
+def _is_namer(ctx, f, e):
+    """call of a function that turns a set of states into the name of a DFA state (its body prints the set with
+    print_state_set), or print_state_set itself"""
+    if not (isinstance(e, ast.Call) and e.args):
+        return False
+    if ctx.callee_name(f, e) == 'print_state_set':
+        return True
+    cal = ctx.callee(f, e)
+    if cal is None:
+        return False
+    ps = [p for p in cal.params if p != 'self']
+    if len(ps) != 1:
+        return False
+    return any(isinstance(c, ast.Call) and ctx.callee_name(cal, c) == 'print_state_set' and c.args and u(c.args[0]) == ps[0] for c in ast.walk(cal.node))
 
 
 def check_subset_names(ctx, rep, f):
-    """(iii) nfa_to_dfa: every subset that is named, enqueued or tested against F is closed"""
+    """(iii) nfa_to_dfa: every subset that is named, enqueued or tested against F is closed.  The namer is recognised by
+    what it does (it prints the subset with print_state_set), the worklist by its loop (emptiness test + pop)."""
+    from .work import find_worklist_loops
     a = Closed(ctx, rep, f)
     a.run()
     n = 0
+    worklists = {wl.wl for wl in find_worklist_loops(ctx, f)} or {'todo'}
     for e in walk_no_nested(f.node):
-        if isinstance(e, ast.Call) and isinstance(e.func, ast.Name) and e.func.id == 'state' and e.args:
+        if _is_namer(ctx, f, e) and not any(_is_namer(ctx, f, x) for x in ast.walk(e.args[0]) if x is not e):
             st, nid = a.state_at(e)
             a.require('iii', e, a.tag(e.args[0], st), 'subset `{}` becomes a DFA state name'.format(u(e.args[0])))
             n += 1
-        if isinstance(e, ast.Call) and isinstance(e.func, ast.Attribute) and e.func.attr == 'append' and u(e.func.value) == 'todo' and e.args:
+        if isinstance(e, ast.Call) and isinstance(e.func, ast.Attribute) and e.func.attr in ('append', 'add') and u(e.func.value) in worklists and e.args:
             st, nid = a.state_at(e)
-            a.require('iii', e, a.tag(e.args[0], st), 'subset `{}` is enqueued for expansion'.format(u(e.args[0])))
-            n += 1
+            arg = e.args[0]
+            parts = [arg]
+            if isinstance(arg, ast.Tuple):
+                # (name, subset) pairs: the subsets are the components with a closedness tag
+                parts = [x for x in arg.elts if a.tag(x, st) in (C, R)] or [x for x in arg.elts if not _is_namer(ctx, f, x)]
+            for x in parts:
+                a.require('iii', e if len(parts) == 1 else x, a.tag(x, st), 'subset `{}` is enqueued for expansion'.format(u(x)))
+                n += 1
     return n
 
 
